@@ -29,6 +29,9 @@ import WcModel.Proofs.GlobSplitShape
                            `adjacent_globstar_witness` (known defect D6's shape)
     * `split_nonempty_src` a part with a predecessor has non-empty text, except directly after
                            the base part — the exception is REAL, `empty_after_base_witness`
+    * `split_base_only`    MATCHBASE / `_EXTMATCHBASE` change NOTHING in the split but the base
+                           part in front: same parts, same compiled regexes as under the flags
+                           with both bits cleared (the G6 repair); `split_part_compiled`
   and the connection `C05_partial_split` / `C05_partial_split_results`: `C05_partial` with
   `WFParts`, `TopOK.drive`, `TopOK.litText` discharged (and `NoLong` from "GLOBSTARLONG not set"
   in `C05_partial_split_flags`); `C05_main_split` / `_flags` / `_results` are the same without
@@ -115,6 +118,29 @@ theorem split_noabsolute (f : Flags) (isBytes : Bool) (p : List Char) (parts : L
 theorem split_noLong (f : Flags) (isBytes : Bool) (p : List Char) (parts : List GPart)
     (h : globSplit f isBytes p = .ok parts) (hf : f.globstarlong = false) : NoLong parts :=
   globSplit_noLong f isBytes p parts h hf
+
+/-- **MATCHBASE / `_EXTMATCHBASE` have exactly one effect on the split — the implicit base part**
+    (the G6 repair, for every pattern string and flag word): the split is the split under
+    `flags & ~(MATCHBASE | _EXTMATCHBASE)` (`Flags.noBase`) — same parts, same compiled regexes —
+    with `**` / `***` put in front when the flags ask for it (`withBase`).  Before the repair each
+    magic part was compiled with the flags still set and carried the `**/` prefix itself
+    (KF-G6, KF-PARTPREFIX, KF-NEWLINE). -/
+theorem split_base_only (f : Flags) (isBytes : Bool) (p : List Char) :
+    globSplit f isBytes p = (globSplit f.noBase isBytes p).map (withBase (SplitCfg.ofFlags f isBytes)) :=
+  globSplit_base_only f isBytes p
+
+theorem split_base_only_ok (f : Flags) (isBytes : Bool) (p : List Char) (parts : List GPart)
+    (h : globSplit f isBytes p = .ok parts) :
+    ∃ s, globSplit f.noBase isBytes p = .ok s ∧
+      (parts = s ∨ (parts = basePart (SplitCfg.ofFlags f isBytes) :: s ∧ (f.extmatchbase = true ∨ f.matchbase = true))) :=
+  globSplit_base_only_ok f isBytes p parts h
+
+/-- every compiled part holds `_wcparse._compile(text, flags & ~(MATCHBASE | _EXTMATCHBASE))` -/
+theorem split_part_compiled (f : Flags) (isBytes : Bool) (p : List Char) (parts : List GPart)
+    (h : globSplit f isBytes p = .ok parts) :
+    ∀ q ∈ parts, q.isMagic = true → q ≠ basePart (SplitCfg.ofFlags f isBytes) →
+      ∃ r, compilePart (SplitCfg.ofFlags f isBytes).flags.noBase isBytes q.pat.src = .ok r ∧ q.pat = .re q.pat.src r :=
+  globSplit_part_compiled f isBytes p parts h
 
 /-! ### the connection to the walker -/
 
@@ -239,6 +265,18 @@ theorem adjacent_globstar_witness :
     splitSummary { extmatchbase := true, globstar := true } "**/a" =
       some [⟨"**".toList, true, true, false, true, false⟩, ⟨"**".toList, true, true, false, true, false⟩,
             ⟨"a".toList, false, false, false, false, false⟩] := by decide +kernel
+
+/-- the prefix of MATCHBASE is a PART (`**`, put in front of a one-part pattern), never a piece of
+    a part's regex: `*(a)` splits into base + `*(a)`, and `*(a)/x` — two parts, so MATCHBASE does
+    not apply — into `*(a)`, `x` alone (the input of the repaired KF-G6, `C04.G6_fixed_witness`) -/
+theorem base_is_a_part_witness :
+    splitSummary { extmatch := true, matchbase := true } "*(a)" =
+      some [⟨"**".toList, true, true, false, true, false⟩, ⟨"*(a)".toList, true, false, false, false, false⟩] ∧
+    splitSummary { extmatch := true, matchbase := true } "*(a)/x" =
+      some [⟨"*(a)".toList, true, false, false, true, false⟩, ⟨"x".toList, false, false, false, false, false⟩] ∧
+    splitSummary { extmatch := true, extmatchbase := true } "*(a)/x" =
+      some [⟨"**".toList, true, true, false, true, false⟩, ⟨"*(a)".toList, true, false, false, true, false⟩,
+            ⟨"x".toList, false, false, false, false, false⟩] := by decide +kernel
 
 /-- … while inside the pattern the merge in `store` works: `**/**/a` has one globstar -/
 theorem merged_globstar_witness :
